@@ -34,8 +34,13 @@ static unsigned int w_nsent;
 static uint8_t w_sent[MAX_SENDS][SENT_MAX];
 static unsigned int w_sent_len[MAX_SENDS];
 static unsigned int w_sent_version[MAX_SENDS]; /* rtr_socket->version when the send happened */
+static uint32_t w_sent_textlen[MAX_SENDS];     /* Error Report: text length field, read in place */
+static bool w_sent_text_ok[MAX_SENDS];         /* Error Report: text is printable + optional final NUL */
 static bool w_send_may_fail;
 static const struct rtr_socket *w_sock;        /* the socket under test (for version at send time) */
+
+static inline uint32_t w_be32(const uint8_t *p);
+static inline uint16_t w_be16(const uint8_t *p);
 
 static void w_init_stream(void)
 {
@@ -97,8 +102,35 @@ int tr_send_all(const struct tr_socket *socket, const void *pdu, const size_t le
 				break;
 			w_sent[w_nsent][i] = src[i];
 		}
+#ifdef WIRE_INPLACE_TEXT
+		/* long reports are not copied completely (SENT_MAX is small): the text part is checked in place */
+		w_sent_textlen[w_nsent] = 0;
+		w_sent_text_ok[w_nsent] = true;
+		if (len >= 16 && src[1] == ERROR) {
+			uint32_t enc = w_be32(src + 8);
+
+			if ((uint64_t)16 + enc <= len) {
+				uint32_t tl = w_be32(src + 12 + enc);
+
+				w_sent_textlen[w_nsent] = tl;
+				if ((uint64_t)16 + enc + tl == len) {
+					for (unsigned int i = 0; i < WIRE_TEXT_MAX; i++) {
+						if (i >= tl)
+							break;
+						uint8_t c = src[16 + enc + i];
+
+						if (!((c >= 0x20 && c < 0x7f) || (c == 0 && i + 1 == tl)))
+							w_sent_text_ok[w_nsent] = false;
+					}
+				}
+			}
+		}
+#endif
 	}
 	w_nsent++;
+#ifdef WIRE_ON_SEND
+	WIRE_ON_SEND(src, (unsigned int)len);
+#endif
 	if (w_send_may_fail && ND_BOOL("send.fail"))
 		return w_nd_tr_error();
 	return (int)len;
